@@ -78,6 +78,10 @@ def _gen_goal(tape, ctx, flavour, strategy, mode):
         sort = bp.INT
         signed = False
     ts = [bp.gen_term(tape, sort, tape.rint(0, 2, "goal.depth"), ctx) for _ in range(nt)]
+    if flavour == "int" and tape.chance(1, 8, "goal.huge"):
+        # objective values far beyond 2**53 (where floating point stops being exact)
+        big = tape.choice([2 ** 62, -(2 ** 62), 2 ** 70 + 1], "goal.huge.k")
+        ts = [["+", t_, ["int", big]] for t_ in ts]
     if nt >= 2 and tape.chance(1, 5, "goal.dupterm"):
         ts[1] = ts[0]
     return {"kind": k, "t": ts, "signed": signed}
@@ -144,7 +148,7 @@ def gen_plan(tape, cfg):
             goals = [_gen_goal(tape, ctx, flavour, strategy, mode) for _ in range(ng)]
             o = {"op": "optimize", "mode": mode, "strategy": strategy, "goals": goals}
             if mode == "pareto" and tape.chance(1, 4, "pareto.stop"):
-                o["stop_after"] = tape.rint(1, 2, "pareto.stop.k")
+                o["stop_after"] = tape.choice([1, 2, 1, -1], "pareto.stop.k")
             prev = [j for j, po in enumerate(ops) if po["op"] == "optimize" and po["mode"] in ("single", "boxed")
                     and po["goals"][0]["kind"] == "maxsmt" and not po["goals"][0]["real_w"]
                     and "reuse" not in po]
@@ -171,7 +175,10 @@ def gen_plan(tape, cfg):
             ops.append(o)
     faults = {}
     if tape.chance(1, 6, "faulty?"):
-        faults["unknown_at"] = [tape.rint(1, 12, "unknown.k")]
+        if tape.chance(1, 3, "fault.push"):
+            faults["push_fails_in_opt"] = [tape.rint(2, 9, "pushfail.k")]
+        else:
+            faults["unknown_at"] = [tape.rint(1, 12, "unknown.k")]
     return {"flavour": flavour, "symbols": symbols, "int_ranges": int_ranges, "mixin": mixin,
             "policy": tape.choice(["uniform", "worst", "best", "first"], "policy"),
             "assumption_style": tape.choice(["z3", "native"], "assumption_style"),
@@ -327,7 +334,7 @@ def _decode_cost(g, c):
 def execute(plan, tape):
     from pysmt.environment import reset_env
     from pysmt.logics import QF_BV, QF_LIA
-    from pysmt.exceptions import SolverReturnedUnknownResultError
+    from pysmt.exceptions import SolverReturnedUnknownResultError, InternalSolverError
     from dsim.brute import BruteSUAOptimizer, BruteIncrementalOptimizer, Table
 
     env = reset_env()
@@ -349,7 +356,7 @@ def execute(plan, tape):
     solver = cls(env, QF_BV if plan["flavour"] == "bv" else QF_LIA, table=table, tape=tape,
                  policy=plan["policy"], assumption_style=plan["assumption_style"], fault_plan=faults,
                  model_scope=plan.get("model_scope", "all"))
-    budget_per_goal = 4 * table.n + 16
+    budget_per_goal = 4 * table.n + 16 + 200      # (+ bisection steps over huge objective values)
     state = {"limit": None}
     orig_solve = solver._solve
 
@@ -510,30 +517,40 @@ def execute(plan, tape):
             state["limit"] = s0 + budget_per_goal * len(goals) * (2 if mode == "pareto" else 1) \
                 * (max(1, len(pareto_front(goals, models))) if mode == "pareto" else 1)
             where = "optimize(%s/%s/%s)" % (plan["mixin"], mode, strategy)
+            if plan.get("faults", {}).get("push_fails_in_opt"):
+                # the back end refuses the k-th push made during this optimisation
+                solver.fault_plan["push_fails_at"] = {solver.b_counts["push"] + plan["faults"]["push_fails_in_opt"][0]}
             try:
                 if mode == "single":
                     res = api(where, solver.optimize, pgoals[0], strategy=strategy,
-                              allowed=(SolverReturnedUnknownResultError,))
+                              allowed=(SolverReturnedUnknownResultError, InternalSolverError))
                 elif mode == "boxed":
                     res = api(where, solver.boxed_optimize, pgoals, strategy=strategy,
-                              allowed=(SolverReturnedUnknownResultError,))
+                              allowed=(SolverReturnedUnknownResultError, InternalSolverError))
                 elif mode == "lex":
                     res = api(where, solver.lexicographic_optimize, pgoals, strategy=strategy,
-                              allowed=(SolverReturnedUnknownResultError,))
+                              allowed=(SolverReturnedUnknownResultError, InternalSolverError))
                 else:
                     stop_after = o.get("stop_after")
 
                     def consume():
                         # the caller may stop iterating early (the generator object is then dropped)
                         out_ = []
+                        if stop_after == -1:
+                            # ... or even ask for the iterator and never start it
+                            it_ = solver.pareto_optimize(pgoals)
+                            del it_
+                            probe("pareto_iterator_never_started")
+                            return out_
                         for item in solver.pareto_optimize(pgoals):
                             out_.append(item)
                             if stop_after and len(out_) >= stop_after:
                                 probe("pareto_iteration_abandoned")
                                 break
                         return out_
-                    res = api(where, consume, allowed=(SolverReturnedUnknownResultError,))
-            except SolverReturnedUnknownResultError:
+                    res = api(where, consume, allowed=(SolverReturnedUnknownResultError, InternalSolverError))
+            except (SolverReturnedUnknownResultError, InternalSolverError):
+                solver.fault_plan.pop("push_fails_at", None)
                 # the oracle gave up in the middle of the search: the optimiser may report that,
                 # but the assertion stack must be as it was before the call
                 probe("optimiser_raised_unknown")
@@ -550,6 +567,7 @@ def execute(plan, tape):
                                 (where, state["limit"] - s0, table.n, len(models)))
             finally:
                 state["limit"] = None
+                solver.fault_plan.pop("push_fails_at", None)
             ncalls = solver.b_counts["solve"] - s0
             # ---- oracles 1-3
             if mode == "single":
@@ -612,7 +630,9 @@ def execute(plan, tape):
                     got.append(v)
                 if len(set(got)) != len(got):
                     raise Violation("C18:pareto-duplicate", "%s yielded %s" % (where, got))
-                if o.get("stop_after") and len(got) >= o["stop_after"] and len(want) >= len(got):
+                if o.get("stop_after") == -1:
+                    pass
+                elif o.get("stop_after") and len(got) >= o["stop_after"] and len(want) >= len(got):
                     # iteration abandoned: what was yielded so far belongs to the front
                     if not set(got) <= want:
                         raise Violation("C18:pareto-front", "%s yielded %s (then abandoned), true front %s for %s" %
@@ -643,10 +663,10 @@ def execute(plan, tape):
                 if g["kind"] == "maxsmt" and models and best(g, models) == 0:
                     probe("maxsmt_all_soft_false")
             # ---- oracle 4: restoration, observed now and by the following user ops
+            observe(where)      # (reading the assertions also resolves a pop left pending by an earlier is_sat)
             if solver.b_depth() != model.depth:
                 raise Violation("C18:restore:depth", "after %s: back-end stack depth %d, user depth %d" %
                                 (where, solver.b_depth(), model.depth))
-            observe(where)
             continue
         if tape.chance(1, 2, "observe"):
             observe("%s@%d" % (k, i))
